@@ -1483,6 +1483,20 @@ def _candidates(ast, rng):
                     got = emit(replace(ast, path + rel + (side,), bad), rule, path + rel + (side,))
                     if got:
                         yield got
+            if leaf[0] == 'arith':
+                # both operands of ONE non-numeric kind (string with string, date with date, boolean with boolean)
+                same = [(('literal', 'a', 'str'), ('literal', 'b', 'str')),
+                        (('literal', '2020-01-01', 'date'), ('literal', '2020-01-02', 'date'))]
+                for kind in ('String', 'Boolean'):
+                    found = Gen.columns(env, scope, kind)
+                    if found:
+                        same.append((found[0], found[-1]))
+                        if kind == 'String':
+                            same.append((found[0], ('literal', 'a', 'str')))
+                for left, right in same:
+                    got = emit(replace(replace(ast, path + rel + (2,), left), path + rel + (3,), right), rule, path + rel)
+                    if got:
+                        yield got
     for path, node in list(walk(ast)):
         # ---- 2'. clauses that are absent: add a non-boolean where / having, window in having
         if node[0] == 'query':
